@@ -222,6 +222,9 @@ def check_property(prop, tier, seed):
         vac_notes = tw
     # kani leaves
     leaf = run_leaves(cfg, tier)
+    # thorough: bounded witness sweep of the property's families on the real crate (honest runs must be
+    # accepted, single edits refused, nothing panics) - a cross-check of the spec functions against the code
+    sweep = run_sweep(prop, cfg, tier) if tier == "thorough" else {"families": [], "probes": 0, "bad": []}
     # ---- evidence
     nfun = sum(len(r["functions"]) for r in results.values() if not isinstance(r, Undecided))
     verified = sum(r["verified"] for r in results.values() if not isinstance(r, Undecided))
@@ -288,6 +291,7 @@ def check_property(prop, tier, seed):
             "non_deciding_failures_seen": [{"label": f["label"], "fn": f.get("fn"), "site": f.get("site")} for f in foreign][:50],
             "known_findings_printed": [k.get("what") for k, _ in kf_lines],
             "vacuity": vac_notes,
+            "bounded_witness_sweep": {"families": sweep["families"], "probes_run_on_real_crate": sweep["probes"], "contradictions": len(sweep["bad"])},
             "samples": sample_obligations(results, pats),
             "repo_head": git_head(REPO),
         },
@@ -349,6 +353,16 @@ def check_property(prop, tier, seed):
             extra = "" if found else " no-failing-input-found"
             lines.append(f"VIOLATION property={prop} replay={rel}{extra}")
             lines.append(f"  obligation {label} failed: {f['message']} at {f.get('site')}: {f.get('text')}")
+    if sweep["bad"]:
+        rc = 1
+        os.makedirs(REPLAY_DIR, exist_ok=True)
+        path = os.path.join(REPLAY_DIR, f"{prop}-witness-sweep.json")
+        with open(path, "w") as fjs:
+            json.dump({"property": prop, "failed_obligation": "bounded witness sweep (thorough tier)", "failing_input_found": True,
+                       "replay": {"failing_inputs": sweep["bad"][:12]}, "how_to_replay": f"./check --replay {os.path.relpath(path, VERIF)}"}, fjs, indent=1)
+        lines.append(f"VIOLATION property={prop} replay={os.path.relpath(path, VERIF)}")
+        lines.append(f"  witness sweep on the real crate: {sweep['bad'][0]['id']} -> {sweep['bad'][0]['outcome'][:100]}")
+        evidence["violations"] += 1
     for lf in leaf.get("failures", []):
         rc = 1
         os.makedirs(REPLAY_DIR, exist_ok=True)
@@ -387,6 +401,22 @@ def run_twins(units, seed):
         missing = sorted(set(expected) - got)
         notes.append({"unit": u, "reachability_asserts": len(expected), "refuted_as_required": len(expected) - len(missing), "vacuous": missing})
     return notes
+
+
+def run_sweep(prop, cfg, tier):
+    fams = cfg.get("families", [])
+    res = {"families": fams, "probes": 0, "bad": []}
+    if not fams:
+        return res
+    drv = os.path.join(VERIF, "replay", "run_replay.py")
+    try:
+        p = subprocess.run([sys.executable, drv, "--sweep", ",".join(fams), "--tier", tier], capture_output=True, text=True, timeout=3000)
+        out = json.loads(p.stdout)
+        res["probes"] = out.get("tried", 0)
+        res["bad"] = out.get("failing_inputs", [])
+    except Exception as e:
+        res["error"] = repr(e)
+    return res
 
 
 def run_leaves(cfg, tier):
